@@ -1232,7 +1232,16 @@ func (db *DB) grow(sz int) error {
 		return nil
 	}
 
+	need := sz
 	sz = db.growSize(db.datasz, sz)
+	if db.MaxSize > 0 && sz > db.MaxSize {
+		// Never grow the file beyond the limit. The required size itself
+		// was already checked against the limit when the pages were allocated.
+		if need > db.MaxSize {
+			return berrors.ErrMaxSizeReached
+		}
+		sz = db.MaxSize
+	}
 
 	// Truncate and fsync to ensure file size metadata is flushed.
 	// https://github.com/boltdb/bolt/issues/284
